@@ -41,7 +41,10 @@ LensClause == IF Len(C.lpr_rq) # Len(Te) THEN "number-of-output-structures-diffe
               ELSE "ok"
 \* reciprocals are logged as round(S / value): -1 marks a value that is not positive (or not a number); 0 is a positive value
 \* beyond the fixed-point range (an unregularised covariance with the test environment in its null space)
-PosClause == IF \E a \in 1..Len(Te) : \E i \in 1..Len(Te[a]) : C.lpr_rq[a][i] < 0 THEN "rigidity-not-positive" ELSE "ok"
+PosClause == IF \E a \in 1..Len(Te) : \E i \in 1..Len(Te[a]) : C.lpr_rq[a][i] < 0 THEN "rigidity-not-positive"
+             ELSE IF \E a \in 1..Len(Te) : \E i \in 1..Len(Te[a]), c \in 1..Len(C.comp) : C.lcpr_rq[a][i][c] < 0 THEN "component-wise-local-rigidity-not-positive"
+             ELSE IF \E a \in 1..Len(Te) : \E c \in 1..Len(C.comp) : C.cpr_rq[a][c] < 0 THEN "component-wise-rigidity-not-positive"
+             ELSE "ok"
 LprClause == IF \E a \in 1..Len(Te) : \E i \in 1..Len(Te[a]) : Conclusive(Te[a][i]) /\ ~Agrees(C.lpr_rq[a][i], Te[a][i])
              THEN "LPR-differs-from-closed-form" ELSE "ok"
 LcprClause == IF \E a \in 1..Len(Te) : \E i \in 1..Len(Te[a]), c \in 1..Len(C.comp) :
